@@ -191,7 +191,7 @@ func lifeHook(point string, args []interface{}) {
 		return
 	}
 	if strings.HasPrefix(point, "@") || point == "send.take" || point == "close.begin" || point == "close.done" ||
-		point == "fid.release" || point == "fid.destroy.call" {
+		point == "fid.destroy.call" {
 		s.mu.Lock()
 		switch point {
 		case "@fid.new":
@@ -207,18 +207,10 @@ func lifeHook(point string, args []interface{}) {
 			s.ftok("R:%s:%s:%d", s.fidOf(args[1]), b2s(args[2].(bool)), args[3].(int))
 		case "@fid.inc":
 			s.ftok("I:%s:%d", s.fidOf(args[1]), args[2].(int))
-		case "fid.release":
-			if f, ok := args[1].(*g.SrvFid); ok && f != nil {
-				s.frel[f]++
-			}
+		case "@fid.release":
+			s.ftok("T:%s:%s", s.fidOf(args[1]), b2s(args[2].(bool)))
 		case "@fid.dec":
-			f, _ := args[1].(*g.SrvFid)
-			t := false
-			if s.frel[f] > 0 {
-				s.frel[f]--
-				t = true
-			}
-			s.ftok("D:%s:%s:%d", s.fidOf(args[1]), b2s(t), args[2].(int))
+			s.ftok("D:%s:%d", s.fidOf(args[1]), args[2].(int))
 		case "@fid.unpool":
 			s.ftok("U:%s:%s", s.fidOf(args[1]), b2s(args[2].(bool)))
 		case "@fid.destroy":
@@ -237,7 +229,7 @@ func lifeHook(point string, args []interface{}) {
 			}
 			s.ftok("S:%s", strings.Join(ids, ","))
 		case "@close.visit":
-			s.ftok("V:%s:%s", s.fidOf(args[1]), b2s(args[2].(bool)))
+			s.ftok("V:%s:%s:%s", s.fidOf(args[1]), b2s(args[2].(bool)), b2s(args[3].(bool)))
 		case "@recv":
 			r := args[0].(*g.SrvReq)
 			id := len(s.reqs)
@@ -622,7 +614,7 @@ func newLifeSess(msize uint32, maxpend int, flushOp bool) *lifeSess {
 // connectLife opens one more connection to srv.
 func connectLife(srv *g.Srv, o *lifeOps, maxpend int) *lifeSess {
 	s := &lifeSess{srv: srv, ops: o, cap: maxpend, rids: map[*g.SrvReq]int{}, plans: map[int]plan{}, relset: map[int]bool{},
-		fobj: map[*g.SrvFid]int{}, frel: map[*g.SrvFid]int{}, fnd: map[int]int{}, closeEnd: make(chan bool),
+		fobj: map[*g.SrvFid]int{}, fnd: map[int]int{}, closeEnd: make(chan bool),
 		frc: make(chan int, 4096), rdone: make(chan bool)}
 	a, b := net.Pipe()
 	s.c = b
